@@ -44,7 +44,9 @@ class AsciiComplex(Adapter):
         super().__init__(base)
 
     def _decode(self, obj, context, path):
-        return obj.real + 1j * obj.imaginary
+        # build the number from its parts: `real + 1j * imaginary` turns the real
+        # part into NaN if the imaginary part is missing, and loses the sign of -0.0
+        return complex(obj.real, obj.imaginary)
 
     def _encode(self, obj, context, path):
         raise NotImplementedError
